@@ -34,6 +34,29 @@ SEEDS = ["0", "1", "2", "random"]
 SEEDS_THOROUGH = ["0", "1", "2", "3", "4", "5", "6", "7", "random"]
 
 
+def _two_hole_contexts():
+    import pytato as pt
+
+    def arith(a, b):
+        if a.dtype.kind == "b":
+            return pt.logical_and(a, b)
+        return a + b
+    return [("binary-op", arith),
+            ("stack", lambda a, b: pt.stack([a, b])),
+            ("dict", lambda a, b: pt.make_dict_of_named_arrays({"k1": a, "k2": b})),
+            ("where", lambda a, b: pt.where(pt.make_placeholder("cnd", a.shape, bool), a, b))]
+
+
+class _Lazy(list):
+    def __iter__(self):
+        if not len(self):
+            self.extend(_two_hole_contexts())
+        return super().__iter__()
+
+
+TWO_HOLE_CONTEXTS = _Lazy()
+
+
 def bounds(tier):
     return {"hash_seeds": SEEDS if tier == "quick" else SEEDS_THOROUGH, "context_depth": 2, "history_length": 3 if tier == "quick" else 4}
 
@@ -108,6 +131,36 @@ def run_node(case):  # noqa: C901
             V("eq-ignores-field", f"field {f} changed ({d}) but the nodes still compare equal "
               f"(hash equal: {hash(m) == hash(node)})", field=f.split("[")[0])
             continue
+        # two-hole contexts: one side uses the *same object* in both holes (real sharing), the other side an equal copy in
+        # one hole and the differing node in the other -- a comparison that remembers verdicts per left operand only, or
+        # per hole, must not be fooled in either direction or hole order
+        try:
+            same_shape = isinstance(node, pt.Array) and isinstance(m, pt.Array) and node.shape == m.shape
+        except Exception:  # noqa: BLE001
+            same_shape = False      # (a mutant whose derived shape cannot be computed cannot be embedded)
+        if same_shape:
+            for (c2n, c2h) in TWO_HOLE_CONTEXTS:
+                try:
+                    shared = c2h(node, node)
+                    others = [("copy,mutant", c2h(rb, m)), ("mutant,copy", c2h(m, rb))]
+                except Exception:  # noqa: BLE001
+                    continue
+                for how, other in others:
+                    n += 1
+                    try:
+                        l2r, r2l = (shared == other), (other == shared)
+                    except Exception as e:  # noqa: BLE001
+                        V("exception", f"two-hole context {c2n}: " + progcheck.exc_msg("compare", e), where=progcheck.exc_site(e))
+                        continue
+                    if l2r or r2l:
+                        V("shared-operand-hides-difference", f"field {f} [{d}] differs, yet {c2n}(node, node) == {c2n}({how}) is {l2r}, "
+                          f"reversed {r2l}", context=c2n)
+                try:
+                    eqc = c2h(rb, nodepool.rebuilt(node))
+                    if not (shared == eqc and eqc == shared and hash(shared) == hash(eqc)):
+                        V("sharing-breaks-equality", f"{c2n}(node, node) != {c2n}(copy, other copy) or hashes differ", context=c2n)
+                except Exception:  # noqa: BLE001
+                    pass
         # congruence under contexts (only array nodes can be embedded)
         if isinstance(node, pt.Array) and isinstance(m, pt.Array):
             for (c1n, c1) in ctxs:
